@@ -104,11 +104,11 @@ Qed.
 Lemma safeS_block : forall L K G b, safeS L K G (SBlock b) = (safeL L (removeAll (declsDeep b) K) b G, G).
 Proof. intros. simpl. rewrite sgo_eq. reflexivity. Qed.
 Lemma safeS_if : forall L K G c b1 b2, safeS L K G (SIf c b1 b2) =
-  (safeCond (mentionsL b1 ++ mentionsL b2 ++ K) G c && safeL L (removeAll (declsDeep b1) K) b1 G
+  (safeCond (cond_mentions c ++ mentionsL b1 ++ mentionsL b2 ++ K) G c && safeL L (removeAll (declsDeep b1) K) b1 G
    && safeL L (removeAll (declsDeep b2) K) b2 G, G).
 Proof. intros. simpl. rewrite !sgo_eq. reflexivity. Qed.
 Lemma safeS_while : forall L K G c b, safeS L K G (SWhile c b) =
-  (safeCond (mentionsL b ++ K) G c && safeL L (removeAll (declsDeep b) (mentionsL b ++ K)) b G, G).
+  (safeCond (cond_mentions c ++ mentionsL b ++ K) G c && safeL L (removeAll (declsDeep b) (cond_mentions c ++ mentionsL b ++ K)) b G, G).
 Proof. intros. simpl. rewrite sgo_eq. reflexivity. Qed.
 
 (* induction principle for the nested statement type *)
@@ -200,7 +200,7 @@ Qed.
 Lemma checkReturnBase_cases : forall b x, (exists e, checkReturnBase b x = addErr e x) \/ checkReturnBase b x = x.
 Proof. intros. unfold checkReturnBase. destruct (mem b (locals x)); eauto. Qed.
 Lemma checkCond_cases : forall c x, (exists e, checkCond c x = addErr e x) \/ checkCond c x = x.
-Proof. intros. destruct c; simpl; auto. apply checkRead_cases. Qed.
+Proof. intros. destruct c as [|pl|r]; simpl; auto. apply checkRead_cases. Qed.
 
 Lemma addErr_noerr : forall e x, errs (addErr e x) <> [].
 Proof. intros e x H. simpl in H. apply app_eq_nil in H. destruct H. discriminate. Qed.
@@ -926,7 +926,7 @@ Lemma cond_sound : forall L D K Ks G x c,
   StInv L D K G x -> subK Ks K -> errs (checkCond c x) = [] ->
   checkCond c x = x /\ safeCond Ks G c = true.
 Proof.
-  intros L D K Ks G x c I HK He. destruct c as [pl|]; simpl in *; auto.
+  intros L D K Ks G x c I HK He. destruct c as [|pl|r]; simpl in *; auto.
   destruct (conflict_read Ks G pl) eqn:C.
   - exfalso. eapply conflict_read_detect; eauto.
   - destruct (checkRead_cases pl x) as [[e Hx]|Hx]; rewrite Hx in *; auto.
@@ -1029,7 +1029,7 @@ Proof.
     + exists []. simpl. rewrite HS. split; [reflexivity|]. split; [intros l []|]. eapply StInv_lift; eauto.
   - (* SIf *)
     rewrite checkNode_if in *. rewrite vsS_if in Hvs. rewrite safeS_if.
-    change (mentions (SIf c b1 b2)) with (mentionsL b1 ++ mentionsL b2) in I.
+    change (mentions (SIf c b1 b2)) with (cond_mentions c ++ mentionsL b1 ++ mentionsL b2) in I.
     change (declsDeepS (SIf c b1 b2)) with (declsDeep b1 ++ declsDeep b2) in *.
     change (varsDeepS (SIf c b1 b2)) with (varsDeep b1 ++ varsDeep b2).
     apply andb_true_iff in Hvs. destruct Hvs as [Hv1 Hv2].
@@ -1037,7 +1037,7 @@ Proof.
     assert (E1 : errs (checkBlock b1 (checkCond c x)) = []) by (eapply ext_noerr; eauto).
     destruct (frame_block b1 (checkCond c x)) as (F1&_).
     assert (E0 : errs (checkCond c x) = []) by (eapply ext_noerr; eauto).
-    destruct (cond_sound L D ((mentionsL b1 ++ mentionsL b2) ++ K) (mentionsL b1 ++ mentionsL b2 ++ Ks) G x c I) as [Hc1 Hc2]; auto.
+    destruct (cond_sound L D ((cond_mentions c ++ mentionsL b1 ++ mentionsL b2) ++ K) (cond_mentions c ++ mentionsL b1 ++ mentionsL b2 ++ Ks) G x c I) as [Hc1 Hc2]; auto.
     { unfold subK. msolve. }
     rewrite Hc1 in *. rewrite Hc2.
     assert (Hd1 : Disj G (declsDeep b1)) by (intros l r Hl Hr Hin; eapply Hdj; eauto; apply in_or_app; auto).
@@ -1057,14 +1057,14 @@ Proof.
         eapply StInv_anti; [eapply StInv_lift; [exact I2 | exact Hd2] | intros q Hq; exact Hq |]. msolve.
   - (* SWhile *)
     rewrite checkNode_while in *. rewrite vsS_while in Hvs. rewrite safeS_while.
-    change (mentions (SWhile c b)) with (mentionsL b) in I.
+    change (mentions (SWhile c b)) with (cond_mentions c ++ mentionsL b) in I.
     change (declsDeepS (SWhile c b)) with (declsDeep b) in *. change (varsDeepS (SWhile c b)) with (varsDeep b).
     destruct (frame_block b (checkCond c x)) as (F1&_).
     assert (E0 : errs (checkCond c x) = []) by (eapply ext_noerr; eauto).
-    destruct (cond_sound L D (mentionsL b ++ K) (mentionsL b ++ Ks) G x c I) as [Hc1 Hc2]; auto.
+    destruct (cond_sound L D ((cond_mentions c ++ mentionsL b) ++ K) (cond_mentions c ++ mentionsL b ++ Ks) G x c I) as [Hc1 Hc2]; auto.
     { unfold subK. msolve. }
     rewrite Hc1 in *. rewrite Hc2.
-    destruct (sound_block_of b H L D (removeAll (declsDeep b) (mentionsL b ++ K)) (removeAll (declsDeep b) (mentionsL b ++ Ks)) G x) as [HS I']; auto.
+    destruct (sound_block_of b H L D (removeAll (declsDeep b) (cond_mentions c ++ mentionsL b ++ K)) (removeAll (declsDeep b) (cond_mentions c ++ mentionsL b ++ Ks)) G x) as [HS I']; auto.
     + intros r Hr. rewrite mem_removeAll. apply mem_In in Hr. rewrite Hr. simpl. apply andb_false_r.
     + eapply StInv_anti; [exact I | | auto]. unfold subK. msolve.
     + unfold subK. msolve.
@@ -1138,7 +1138,7 @@ Qed.
 Lemma sound_needs_scoping :
   exists body, wf body /\ accept [] body = true /\ safe [] body = false.
 Proof.
-  exists [SIf None [SRetBor false (0, [])] []; SVar 0]. split; [|split].
+  exists [SIf CNone [SRetBor false (0, [])] []; SVar 0]. split; [|split].
   - unfold wf. simpl. constructor.
   - vm_compute. reflexivity.
   - vm_compute. reflexivity.
@@ -1165,9 +1165,9 @@ Definition demo_body : list stmt :=
   [SVar 0; SVar 1000;
    SLet 0 true (0, [SF 2]); SWt 0;
    SLet 1 false (0, [SF 0]); SCopy 2 1;
-   SIf (Some (0, [SF 1])) [SUse 1; SBlock [SVar 2; SLet 3 true (2, [SF 3; SI (Some 1)]); SWt 3]] [SUse 2];
-   SWhile None [SLet 4 true (0, [SF 3; SI None]); SWt 4; SCall [ABor false (0, [SF 0]); ARd (0, [SF 1]); ARef 4]; SWrite (1000, [])];
+   SIf (CPl (0, [SF 1])) [SUse 1; SBlock [SVar 2; SLet 3 true (2, [SF 3; SI (Some 1)]); SWt 3]] [SIf (CRef 2) [SRead (0, [SF 1])] [SIf CNone [] [SUse 2]]];
+   SWhile (CRef 1) [SLet 4 true (0, [SF 3; SI None]); SWt 4; SCall [ABor false (0, [SF 0]); ARd (0, [SF 1]); ARef 4]; SWrite (1000, [])];
    SWrite (0, []); SRead (0, [SF 2; SF 5]);
-   SIf None [SRetRef 100] []; SRetRef 100].
+   SIf CNone [SRetRef 100] []; SRetRef 100].
 Lemma demo_hyps : wf demo_body /\ vscoped [3] demo_body /\ accept [3] demo_body = true.
 Proof. split; [apply wfb_wf; vm_compute; reflexivity | split; vm_compute; reflexivity]. Qed.
